@@ -69,7 +69,7 @@ Section Nav.
     assert (Hdm : dies_mono (dies s) (upd_nth x f (dies s))).
     { apply dies_mono_upd. intros d Hd. assert (d = dx) by congruence. subst d. auto. }
     split.
-    - destruct HI as [I1 I2 I3 I4 I5 I6 I7 I8 I9 I10 I11 I12]. unfold s'. constructor; scbn; auto.
+    - destruct HI as [I1 I2 I3 I4 I5 I6 I7 I8 I9 I10 I11 I12 I13]. unfold s'. constructor; scbn; auto.
       + intros id c Hc. eapply (cu_ok_mono F WF fuel Hfuel); [exact Hdm|auto].
       + intros id d Hd. apply nth_error_upd_nth in Hd. destruct Hd as [(-> & y & Hy & ->)|(Hne & Hd)].
         * assert (y = dx) by congruence. subst y.
